@@ -5,6 +5,7 @@
 set -u
 export GOFLAGS=-mod=mod GOPROXY=off GOSUMDB=off GOTOOLCHAIN=local
 P=$1; V=$2; shift 2
+if [ -n "$(git -C /repo status --porcelain)" ]; then echo "refusing: /repo has uncommitted changes (they would be lost by the revert)"; exit 2; fi
 CHECKS=${@:-$P}
 SRC=/tmp/seed/$P/out/$V
 [ -d "$SRC" ] || SRC=/verif/seeded/$P-$V
